@@ -158,7 +158,7 @@ Definition trap_spec (vect : N) (st : state) : result :=
   | 36 (* x24 PUTSP *) =>
       match string_walk FOREVER putsp_word st (R st 0) with
       | Some st' => Running st' | None => Diverged end
-  | 37 (* x25 HALT *) => Running (emit (set_pc st 65535) BANNER)
+  | 37 (* x25 HALT *) => Running (emit_list (set_pc st 65535) BANNER)
   | 38 (* x26 PUTN *) => Running (emit_list st (signed_dec (R st 0)))
   | 39 (* x27 REG *) => Running (emit_list st (reg_dump st))
   | _ => Exited 238 st     (* unknown vector: error exit 0xEE *)
